@@ -93,25 +93,39 @@ func selfCheck(c *kit.Ctx) bool {
 	return true
 }
 
+// kindOf spreads the world kinds over the case indexes: 45% plain tries, 37% model-built states,
+// 15% states written by the production pipeline, 3% code/node alias worlds.
 func kindOf(i int) string {
-	switch x := i % 20; {
-	case x < 9:
+	switch x := (i*37 + i/100) % 100; {
+	case x < 45:
 		return "trie"
-	case x < 16:
+	case x < 82:
 		return "state"
-	case x < 19:
+	case x < 97:
 		return "prod"
 	}
 	return "alias"
+}
+
+// stuckSeen counts syncs of this child that could not be judged because they never finished
+// (scheduler dead end under an eventually honest responder, production sync watchdog). The
+// orchestrator ignores inconclusive cases in its verdict, so each child that saw none adds one to
+// children_without_stuck_sync and the plan requires all 16 children of a run to do so.
+var stuckSeen int
+
+func finishChild(c *kit.Ctx) {
+	if c.Only == "" && stuckSeen == 0 {
+		c.Count("children_without_stuck_sync", 1)
+	}
 }
 
 func runSched(c *kit.Ctx) {
 	if c.Only == "" && c.Batch == 0 && !selfCheck(c) {
 		return
 	}
-	n := c.N(4000, 300000)
+	n := c.N(4000, 600000)
 	if c.Mode == "race" {
-		n = c.N(600, 30000)
+		n = c.N(600, 60000)
 	}
 	for i := 0; i < n; i++ {
 		kind := kindOf(i)
@@ -121,10 +135,14 @@ func runSched(c *kit.Ctx) {
 		}
 		runSchedCase(c, id, kind)
 	}
+	finishChild(c)
 }
 
 func runDL(c *kit.Ctx) {
-	n := c.N(160, 12000)
+	n := c.N(160, 20000)
+	if c.Mode == "race" {
+		n = c.N(160, 12000)
+	}
 	for i := 0; i < n; i++ {
 		kind := kindOf(i)
 		id := fmt.Sprintf("d%d-%s", i, kind)
@@ -133,4 +151,5 @@ func runDL(c *kit.Ctx) {
 		}
 		runDLCase(c, id, kind)
 	}
+	finishChild(c)
 }
